@@ -77,6 +77,9 @@ type jobSpec struct {
 	SD string `json:"sd,omitempty"`
 	// NoFollow: follow_redirects: false
 	NoFollow bool `json:"noFollow,omitempty"`
+	// CAFile: tls_config.ca_file of the job.  A file that cannot be read makes the scrape manager unable to build
+	// the job's HTTP client: the job is configured and discovered, it just cannot be scraped for the time being
+	CAFile string `json:"caFile,omitempty"`
 }
 
 type grpSpec struct {
@@ -102,6 +105,10 @@ func (j *jobSpec) yaml(indent string) string {
 	}
 	if j.NoFollow {
 		w("  follow_redirects: false")
+	}
+	if j.CAFile != "" {
+		w("  tls_config:")
+		w("    ca_file: %s", q(j.CAFile))
 	}
 	if len(j.Params) > 0 {
 		w("  params:")
